@@ -51,7 +51,9 @@ def run(ctx):
             defs, cfg = RC.gen_groupdefs(rng)
             nroots = rng.choice([0, 0, 1, 2])
             explicit = [(sp, c) for sp in ["HEAD", "main", s.oids[c].hex()][:nroots]]
-            rc, out, err, log = eng.run_fake(s, order, cli, explicit, config=cfg, extra_args=[])
+            # the caller's own environment may carry GIT_GRAFT_FILE (and other GIT_* settings): git-sizer's must win
+            callenv = {"GIT_GRAFT_FILE": "/var/tmp/callers-grafts"} if it % 2 else None
+            rc, out, err, log = eng.run_fake(s, order, cli, explicit, config=cfg, extra_args=[], env=callenv)
             nsyms = len({d[0] for d in defs})
             line = "trace %d %s R %s" % (nsyms, " ".join(toks), " ".join(vlib.hx(sp.encode()) for sp, _ in explicit))
             m = eng.model([" ".join(line.split())])[0]
@@ -125,6 +127,18 @@ def run(ctx):
                                                          expected=base.stdout[:300].decode(), observed=(out or p.stderr)[:300].decode("latin1")))
             # replace refs and grafts
             commits = [i for i, o in enumerate(sc.objects) if o["kind"] == "commit"]
+            if len(commits) >= 2:
+                # a graft file named by the CALLER's environment
+                gf = os.path.join(scratch, "callers-grafts%d" % it)
+                a, b = rng.sample(commits, 2)
+                with open(gf, "w") as f:
+                    f.write("%s %s\n" % (sc.oids[a].hex(), sc.oids[b].hex()))
+                    f.write("%s\n" % sc.oids[commits[-1]].hex())
+                genv = subprocess.run([ctx["bins"]["sizer"]] + args, cwd=d, env=dict(env, GIT_GRAFT_FILE=gf), stdout=subprocess.PIPE, stderr=subprocess.PIPE)
+                res.case(("GIT_GRAFT_FILE", tuple(sc.oids)), True)
+                if genv.returncode != 0 or genv.stdout != base.stdout:
+                    res.violations.append(vlib.Violation("a graft file named by GIT_GRAFT_FILE in the caller's environment changes the report", inp,
+                                                         expected=base.stdout[:300].decode(), observed=(genv.stdout or genv.stderr)[:300].decode("latin1")))
             trees = [i for i, o in enumerate(sc.objects) if o["kind"] == "tree"]
             blobs = [i for i, o in enumerate(sc.objects) if o["kind"] == "blob"]
             tampered = 0
